@@ -979,25 +979,25 @@ struct Gen {
         build_universe(dr < 45 ? 0 : dr < 85 ? 1 : 2);
         int last = mpLen() - 1;
         int r0 = mainPath[(size_t) last];
-        if (extraRoots.empty() && t.coin()) extraRoots.push_back(add("OtherRoot", -1, true));
-        bool onPath = extraRoots.empty() || t.below(100) < 62;
+        if (extraRoots.empty()) extraRoots.push_back(add("OtherRoot", -1, true));     // a CA file whose only entry fails to parse cannot be loaded at all
+        bool onPath = t.below(8) < 5;
         int target = onPath ? r0 : extraRoots[(size_t) t.below(extraRoots.size())];
         {
             Node &x = cs.n[(size_t) target];
             bool ed = kkind(x.signKey) == mint::K_ED25519, rsa = mint::kind_is_rsa(kkind(x.signKey));
-            unsigned v = (unsigned) t.below(100);
+            unsigned v = (unsigned) t.below(64);
             const char *cls;
-            if (v < 40) { x.unk = 2; cls = "anchor-unknown-critical-ext"; }
-            else if (v < 50) { x.version = 1; cls = "anchor-v1"; }
-            else if (v < 58)
+            if (v < 20) { x.unk = 2; cls = "anchor-unknown-critical-ext"; }
+            else if (v < 27) { x.version = 1; cls = "anchor-v1"; }
+            else if (v < 33)
             {
                 int k = key_of_kind(mint::K_RSA768);
                 if (k >= 0) { x.key = k; resign_children_of(x.id); cls = "anchor-weak-rsa-key"; } else { x.unk = 2; cls = "anchor-unknown-critical-ext"; }
             }
-            else if (v < 66 && !ed) { x.hash = rsa && t.coin() ? mint::H_MD5 : mint::H_SHA1; cls = "anchor-selfsig-weak-hash"; }
-            else if (v < 73) { x.sig = SIG_BITFLIP; x.sigBit = (unsigned) t.u16(); cls = "anchor-selfsig-corrupt"; }
-            else if (v < 79) { x.sig = SIG_ALGMISMATCH; cls = "anchor-sigalg-mismatch"; }
-            else if (v < 86) { x.na = -(int64_t) (2 + t.below(300)) * DAY; cls = "anchor-expired"; }
+            else if (v < 39 && !ed) { x.hash = rsa && t.coin() ? mint::H_MD5 : mint::H_SHA1; cls = "anchor-selfsig-weak-hash"; }
+            else if (v < 44) { x.sig = SIG_BITFLIP; x.sigBit = (unsigned) t.u16(); cls = "anchor-selfsig-corrupt"; }
+            else if (v < 48) { x.sig = SIG_ALGMISMATCH; cls = "anchor-sigalg-mismatch"; }
+            else if (v < 54) { x.na = -(int64_t) (2 + t.below(300)) * DAY; cls = "anchor-expired"; }
             else cls = "anchor-clean";
             note((std::string(cls) + (onPath ? ":path-root" : ":other-entry")).c_str(), onPath ? last : -1);
         }
